@@ -30,7 +30,8 @@ import (
 )
 
 const rule = "a case is non-trivial when the MAC stored in the (mutated) document is valid for the case's password under the document's own, leniently read, KDF parameters and ciphertext " +
-	"(the harness recomputes the MAC after mutating), so that the library gets past the MAC comparison and the malformed field is what decides the outcome; distinct by hash of the case JSON"
+	"(the harness recomputes the MAC after mutating), so that the library gets past the MAC comparison and the malformed field is what decides the outcome; " +
+	"a history (kind seq) is non-trivial when it reads a genuine file and a copy with altered cost parameters of the same salt/password family (either order) or uses a near-miss password; every concurrent batch; distinct by hash of the case JSON"
 
 const cipherKey = "cipher-unchecked"
 
